@@ -490,6 +490,41 @@ example : (lrun (deserMol deserMolV2) ⟨[("k", N (serMol serMolV2 sample))], []
     some (some (deserMol deserMolV2 (N (serMol serMolV2 sample)))) := by
   simp [lrun, lstep, Lib.get]
 
+/-! ### libraries on different paths are independent -/
+
+/-- a store into the library at one path leaves the library at every other path exactly as it is -/
+theorem other_paths_untouched (L : Libs) (o : PutOp) (q : String) (h : q ≠ o.path) : (L.step o) q = L q := by
+  simp [Libs.step, h]
+
+/-- **the libraries of a process are a product of maps**: whatever stores are made into whichever libraries, in whatever
+interleaving (sessions overlapping in time, same keys or different keys), the library at path `q` ends up exactly as if
+only the stores addressed to `q` had been made, in their order -/
+theorem libraries_are_a_product (ops : List PutOp) (L : Libs) (q : String) :
+    (L.run ops) q = (ops.filter (fun o => o.path = q)).foldl (fun l o => l.putOr o.key o.wire) (L q) := by
+  induction ops generalizing L with
+  | nil => rfl
+  | cons o os ih =>
+    simp only [Libs.run, List.foldl_cons] at ih ⊢
+    rw [ih (L.step o)]
+    by_cases h : o.path = q
+    · simp [List.filter_cons, h, Libs.step]
+    · have hq : q ≠ o.path := fun e => h e.symm
+      simp [List.filter_cons, h, other_paths_untouched L o q hq]
+
+/-- … hence what `lib_q[k]` gives does not depend on the stores into other libraries -/
+theorem read_ignores_other_libraries (ops : List PutOp) (L : Libs) (q k : String) :
+    ((L.run ops) q).get k = ((L.run (ops.filter (fun o => o.path = q))) q).get k := by
+  rw [libraries_are_a_product, libraries_are_a_product, List.filter_filter]
+  simp
+
+def noLibs : Libs := fun _ => []
+
+example : Libs.run noLibs [⟨"a.mlib", "k", MVal.int 1⟩, ⟨"b.mlib", "k", MVal.int 2⟩, ⟨"a.mlib", "j", MVal.int 3⟩] "a.mlib"
+      = [("k", MVal.int 1), ("j", MVal.int 3)] ∧
+    Libs.run noLibs [⟨"a.mlib", "k", MVal.int 1⟩, ⟨"b.mlib", "k", MVal.int 2⟩, ⟨"a.mlib", "j", MVal.int 3⟩] "b.mlib"
+      = [("k", MVal.int 2)] := by
+  simp [Libs.run, Libs.step, Lib.putOr, Lib.put, Lib.get, N, noLibs]
+
 /-! ### down to the bytes in the file -/
 
 /-- msgpack's byte format (`Molli.Model.Msgpack`: smallest integer / length forms, float64, bin, str,
